@@ -55,7 +55,11 @@ def build_scene(sc: dict):
     constraints.extend(clist)
     if sc.get("slab"):
         sl = sc["slab"]
-        mat = fdtdx.Material(permittivity=sl.get("eps", 2.0), permeability=sl.get("mu", 1.0), electric_conductivity=sl.get("sigma", 0.0), magnetic_conductivity=sl.get("sigma_m", 0.0))
+        disp = None
+        if sl.get("lorentz"):
+            lz = sl["lorentz"]  # {"f": resonance_frequency, "g": damping, "de": delta_epsilon}
+            disp = fdtdx.DispersionModel(poles=(fdtdx.LorentzPole(resonance_frequency=lz["f"], damping=lz["g"], delta_epsilon=lz["de"]),))
+        mat = fdtdx.Material(permittivity=sl.get("eps", 2.0), permeability=sl.get("mu", 1.0), electric_conductivity=sl.get("sigma", 0.0), magnetic_conductivity=sl.get("sigma_m", 0.0), dispersion=disp)
         shape = tuple(h - l for l, h in zip(sl["lo"], sl["hi"]))
         slab = fdtdx.UniformMaterialObject(name="slab", partial_grid_shape=shape, material=mat)
         constraints.append(slab.set_grid_coordinates(axes=(0, 1, 2), sides=("-", "-", "-"), coordinates=tuple(sl["lo"])))
